@@ -61,7 +61,9 @@ def run(ctx):
                 return None
             c = r.choice(cols)
             f = rec[:-len(eol)].split("\t")
-            bad = r.choice(["x", "1x", "x1", "12a3", "abc", "1 2"])
+            bad = r.choice(["x", "1x", "x1", "12a3", "abc", "1 2", " 120", ".5", "#70", "1.5x", "12-3", "5 ", "--5", "-", "+", "!", "/7", ",3", "(4)", "*"])
+            if (fmt.name, c) in (("bdg", 3), ("narrowpeak", 6)) and bad == ".5":
+                bad = ".5."       # '.5' is a float
             f[c] = bad
             raws[pos] = "\t".join(f) + eol
             line = pos
